@@ -256,7 +256,7 @@ func ruleReceiptFlow(r *Run) {
 			}
 			queued++
 			r.CheckT("I5", fn.Name+":never-blocks", ev.NonBlocking, ev.Pos, path, "submitting a receipt never blocks the connection (select with default)")
-			r.CheckT("I5", fn.Name+":queue", r.P.Canon(fn, ev.Chan) == "recv.ReceiptChan", ev.Pos, path, "the receipt is queued on the handler's receipt channel")
+			r.CheckT("I5", fn.Name+":queue", r.P.Canon(ev.Fn, ev.Chan) == "recv.ReceiptChan", ev.Pos, path, "the receipt is queued on the handler's receipt channel")
 			if ss, ok := ev.Node.(*ast.SendStmt); ok {
 				lit := r.P.compositeOf(fn, ss.Value)
 				okP := lit != nil
